@@ -368,3 +368,27 @@ Proof.
   destruct (feed_all (snd (get_results q)) rest) as [q0|e|s|]; cbn [lift_p] in Hq'; try discriminate.
   injection Hq' as <-. exists (p_stmts q0). rewrite <- Es. reflexivity.
 Qed.
+
+(** how the front end can stop: accepted; an I/O error without location (a line that is not UTF-8);
+    a lex error; a parse error -- never a panic *)
+Lemma front_verdict : forall lines lno lx ps, pinv ps ->
+  match snd (front lno lines lx ps) with
+  | FeDone => True
+  | FeErr e l => (e = EIo /\ l = nil_loc) \/ e = ELex \/ e = EParse
+  | FePanic _ => False
+  end.
+Proof.
+  induction lines as [|line rest IH]; intros lno lx ps Hp; cbn [front].
+  - assert (Te : tok_ok eof_token = true) by reflexivity.
+    pose proof (feed_inv ps eof_token Hp Te) as F.
+    destruct (feed ps eof_token) as [ps'|e|s'|]; cbn in F |- *; try contradiction; auto.
+  - destruct (utf8_valid line) eqn:Hv; cbn [negb snd]; [|left; split; reflexivity].
+    destruct (lex_line lx lno line) as [lx' toks] eqn:L.
+    pose proof (lex_total_final lx lno line Hv) as T. rewrite L in T. cbn [snd] in T.
+    destruct T as [[ts T]|T]; subst toks; [|cbn [snd]; right; left; reflexivity].
+    pose proof (lexer_tokens_ok lx lno line lx' ts Hv L) as Hts.
+    pose proof (feed_line_post ts ps Hp Hts) as F.
+    destruct (feed_line ps ts) as [[ps'|e|s'|]|[e l]]; try contradiction; cbn [snd].
+    + apply IH. apply pinv_get_results. exact F.
+    + right. right. exact F.
+Qed.
